@@ -17,11 +17,16 @@ use crate::refmodel::{head, redirect, uri3986};
 pub struct Loc {
     /// values of the Location fields of the response, in order (the last one counts); empty = no Location
     pub fields: Vec<Vec<u8>>,
+    /// put an empty-valued field (`X-Served-By:`) right before the last Location field
+    pub empty_field_before_last: bool,
 }
 
 impl Loc {
     pub fn one(s: &str) -> Loc {
-        Loc { fields: vec![s.as_bytes().to_vec()] }
+        Loc { fields: vec![s.as_bytes().to_vec()], empty_field_before_last: false }
+    }
+    pub fn many(fields: Vec<Vec<u8>>) -> Loc {
+        Loc { fields, empty_field_before_last: false }
     }
     pub fn last_str(&self) -> Option<&str> {
         self.fields.last().and_then(|b| std::str::from_utf8(b).ok())
@@ -39,6 +44,8 @@ pub struct ChainCfg {
     pub check_credentials: bool,
     /// check the target resolution (C14)
     pub check_target: bool,
+    /// the server answers an Expect: 100-continue request with the redirect itself (no 100, body never sent)
+    pub refuse_expect: bool,
 }
 
 #[derive(Clone, Debug, PartialEq, Eq)]
@@ -69,6 +76,11 @@ pub struct HeadOut {
 
 /// Write the head of a Prepare flow (on a clone) under a given buffer schedule.
 pub fn write_head(f: &Flow<(), Prepare>, small: bool) -> HeadOut {
+    write_head_sized(f, if small { 48 } else { 8192 })
+}
+
+/// Same with a fixed buffer size for every call.
+pub fn write_head_sized(f: &Flow<(), Prepare>, size: usize) -> HeadOut {
     let mut sr = f.clone().proceed();
     let mut bytes = Vec::new();
     let mut guard = 0;
@@ -77,8 +89,8 @@ pub fn write_head(f: &Flow<(), Prepare>, small: bool) -> HeadOut {
         if guard > 500 {
             return HeadOut { bytes, err: Some("head writer does not finish".into()) };
         }
-        // small schedule: 48-byte buffers (one or two lines per call); every line of the menus fits
-        let mut buf = vec![0u8; if small { 48 } else { 8192 }];
+        // small schedules: one or two lines per call
+        let mut buf = vec![0u8; size];
         match sr.write(&mut buf) {
             Ok(n) => {
                 bytes.extend_from_slice(&buf[..n]);
@@ -102,12 +114,20 @@ pub enum Followed {
 
 /// Drive a Prepare flow through one exchange that ends in a redirect response, then follow it.
 pub fn follow(f: &Flow<(), Prepare>, body: &[u8], status: u16, loc: &Loc, same_host: bool) -> Result<Followed, String> {
+    follow_ex(f, body, status, loc, same_host, false)
+}
+
+pub fn follow_ex(f: &Flow<(), Prepare>, body: &[u8], status: u16, loc: &Loc, same_host: bool, refuse_expect: bool) -> Result<Followed, String> {
     let mut sr = f.clone().proceed();
     let mut buf = vec![0u8; 8192];
     sr.write(&mut buf).map_err(|e| format!("head: {:?}", e))?;
     let mut cur = AnyFlow::SendRequest(sr).proceed()?.ok_or("cannot leave SendRequest")?;
     let mut resp = format!("HTTP/1.1 {} R\r\n", status).into_bytes();
-    for l in &loc.fields {
+    for (i, l) in loc.fields.iter().enumerate() {
+        if loc.empty_field_before_last && i + 1 == loc.fields.len() {
+            // an empty-valued field between the Location fields must not hide the last one
+            resp.extend_from_slice(b"X-Served-By:\r\n");
+        }
         resp.extend_from_slice(b"Location: ");
         resp.extend_from_slice(l);
         resp.extend_from_slice(b"\r\n");
@@ -120,7 +140,15 @@ pub fn follow(f: &Flow<(), Prepare>, body: &[u8], status: u16, loc: &Loc, same_h
             return Err(format!("exchange stuck in {}", cur.name()));
         }
         cur = match cur {
-            AnyFlow::Await100(f) => AnyFlow::Await100(f).proceed()?.ok_or("await100")?,
+            AnyFlow::Await100(mut f) => {
+                if refuse_expect {
+                    let n = f.try_read_100(&resp).map_err(|e| format!("try_read_100: {:?}", e))?;
+                    if n != 0 {
+                        return Err("refusal consumed while awaiting 100".into());
+                    }
+                }
+                AnyFlow::Await100(f).proceed()?.ok_or("await100")?
+            }
             AnyFlow::SendBody(mut f) => {
                 if !body.is_empty() {
                     let (c, _) = f.write(body, &mut buf).map_err(|e| format!("body: {:?}", e))?;
@@ -335,7 +363,7 @@ impl Sys for ChainSt {
         let loc = self.cfg.locs[a.loc].clone();
         let f = self.flow.take().unwrap();
         let body: &[u8] = if self.hop == 0 { &self.cfg.body } else { &[] };
-        let r = follow(&f, body, a.status, &loc, a.same_host).map_err(|e| (self.k("harness:follow"), e))?;
+        let r = follow_ex(&f, body, a.status, &loc, a.same_host, self.cfg.refuse_expect && self.hop == 0).map_err(|e| (self.k("harness:follow"), e))?;
         // reference: target
         let want_method = redirect::new_method(&self.method, a.status);
         let target: Result<uri3986::Parts, String> = match loc.fields.last() {
